@@ -1,3 +1,374 @@
 import Cppcms.Common
-/-! Line-protocol driver for C06 (stub: model not written yet). -/
-def main : IO Unit := Cppcms.lineLoop () (fun s _ => (s, "unimplemented"))
+import Cppcms.C06.Model
+import Cppcms.C06.Spec
+/-!
+Line-protocol driver for C06 (stateful: one history = a `new` line followed by `req` / `gc` lines).
+
+    new <client|server|both> <memory|files> <how 0..2> <timeout> <client_size_limit>
+    req <browser> <now> <jar|none|raw:HEX|old:J|steal:B> <op>*
+    gc <now>
+  ops: set:K:V erase:K clear expose:K hide:K age:N defage how:N defhow srv:0|1 reset
+       (K hex, V hex or rHHxCOUNT = COUNT copies of byte HH)
+
+Answer to `req` (the harness prints the same for the real code):
+    P <presented> R <reads> S <saved> C <set-cookie calls> J <jar> T <storage> A <storage calls>
+Session-cookie values and storage keys are canonicalised by first occurrence (`I#3`, `C#5`); a value the
+server never issued is printed raw (`x…`).
+
+`J <case line> ;; <implementation's answer>` lines evaluate the property predicate of `Spec.lean`
+(token-level session semantics) on what the implementation printed; answer `1` or `0 <reason>`.
+With the argument `trace` the `req` answers are replaced by the branch taken (coverage statistics).
+-/
+open Cppcms Cppcms.C06
+
+/-! ### externals, instantiated for execution -/
+
+def hexNibble (n : Nat) : UInt8 := UInt8.ofNat (if n < 10 then 48 + n else 87 + n)
+
+/-- the n-th fresh identifier: `n` as 32 lower-case hex digits -/
+def sidOfNat (n : Nat) : Bytes :=
+  (List.range 32).map fun i => hexNibble (n / 16 ^ (31 - i) % 16)
+
+/-- stand-in for time-stamp prefix + encryptor + base64url: `~<deadline>.<data>`; `~` is outside the
+base64url alphabet, so nothing the case generator sends as a forged cookie is in the range of `enc` -/
+def encStd (to : Int) (d : Bytes) : Bytes := 126 :: (Spec.showDec to ++ 46 :: d)
+
+def decStd (s : Bytes) : Option (Int × Bytes) :=
+  match s with
+  | 126 :: r =>
+    let num := r.takeWhile (· != 46)
+    match r.dropWhile (· != 46), Spec.readDec num with
+    | _ :: d, some t => if num.any Spec.isSpace || num.head? == some 43 then none else some (t, d)
+    | _, _ => none
+  | _ => none
+
+def envStd : Env := ⟨sidOfNat, encStd, decStd, Spec.showDec, Spec.readDec⟩
+
+/-! ### printing -/
+
+def adler (bs : Bytes) : Nat :=
+  let (a, b) := bs.foldl (fun (p : Nat × Nat) c => let a := (p.1 + c.toNat) % 65521; (a, (p.2 + a) % 65521)) (1, 0)
+  b * 65536 + a
+
+/-- long byte strings are abbreviated: `z<length>.<first 16 bytes>.<adler32>` -/
+def abbr (bs : Bytes) : String :=
+  if bs.length ≤ 48 then toHex bs else s!"z{bs.length}.{toHex (bs.take 16)}.{adler bs}"
+
+def idxOf (v : Bytes) : List Bytes → Nat → Option Nat
+  | [], _ => none
+  | x :: rest, i => if x = v then some i else idxOf v rest (i + 1)
+
+def canonTok (issued : List Bytes) (v : Bytes) : String :=
+  match v with
+  | [] => "-"
+  | c :: _ =>
+    match idxOf v issued 0 with
+    | some i => s!"{Char.ofNat c.toNat}#{i}"
+    | none => "x" ++ toHex v
+
+def canonKey (issued : List Bytes) (k : Bytes) : String :=
+  match idxOf (73 :: k) issued 0 with
+  | some i => s!"I#{i}"
+  | none => "x" ++ toHex k
+
+def errStr : Err → String
+  | .keyTooLong => "keyTooLong" | .valueTooLong => "valueTooLong" | .formatPack => "formatPack"
+  | .formatData => "formatData" | .badCast => "badCast" | .cookiesOnServer => "cookiesOnServer"
+
+def joinWith (sep : String) (l : List String) : String := sep.intercalate l
+
+def readsStr (r : Except Err Reads) : String :=
+  match r with
+  | .error e => "err:" ++ errStr e
+  | .ok r =>
+    let es := r.data.map fun (k, e) => s!"{toHex k}={abbr e.value}:{boolStr e.exposed}"
+    s!"{r.age},{r.how},{boolStr r.onServer},[{joinWith ";" es}]"
+
+def ageStr (a : Int) : String := if a < 0 then "del" else if a == 0 then "ses" else toString a
+
+def cookieStr (issued : List Bytes) (c : SetCookie) : String :=
+  match c.key with
+  | [] => s!"@={canonTok issued c.value}:{ageStr c.age}"
+  | _ => s!"{toHex c.key}={abbr c.value}:{ageStr c.age}"
+
+def jarStr (issued : List Bytes) (j : Jar) : String :=
+  s!"{canonTok issued j.cookie},[{joinWith ";" (j.exposed.map fun (k, v) => s!"{toHex k}={abbr v}")}]"
+
+def insertSorted (s : String) : List String → List String
+  | [] => [s]
+  | x :: xs => if s < x then s :: x :: xs else x :: insertSorted s xs
+
+def sortStrings (l : List String) : List String := l.foldl (fun acc s => insertSorted s acc) []
+
+def storeStr (issued : List Bytes) (st : Store) : String :=
+  "[" ++ joinWith ";" (sortStrings (st.recs.map fun r => s!"{canonKey issued r.sid}@{r.timeout}={abbr r.data}")) ++ "]"
+
+def opChar : StOp → String
+  | .load => "l" | .save => "s" | .remove => "r"
+
+def logStr (issued : List Bytes) (l : List (StOp × Bytes)) : String :=
+  "[" ++ joinWith ";" (l.reverse.map fun (o, k) => opChar o ++ canonKey issued k) ++ "]"
+
+/-! ### parsing -/
+
+def sdrop (s : String) (n : Nat) : String := String.ofList (s.toList.drop n)
+def sdropEnd (s : String) (n : Nat) : String := String.ofList (s.toList.take (s.length - n))
+
+def parseInt (s : String) : Option Int :=
+  if s.startsWith "-" then (sdrop s 1).toNat?.map fun n => -(n : Int) else s.toNat?.map fun n => (n : Int)
+
+def parseVal (s : String) : Option Bytes :=
+  if s.startsWith "r" then
+    match (sdrop s 1).splitOn "x" with
+    | [hh, cnt] =>
+      match parseHex hh, cnt.toNat? with
+      | some [b], some n => some (List.replicate n b)
+      | _, _ => none
+    | _ => none
+  else parseHex s
+
+def parseOp (s : String) : Option Op :=
+  match s.splitOn ":" with
+  | ["set", k, v] => do let k ← parseHex k; let v ← parseVal v; pure (.set k v)
+  | ["erase", k] => (parseHex k).map .erase
+  | ["clear"] => some .clear
+  | ["expose", k] => (parseHex k).map .expose
+  | ["hide", k] => (parseHex k).map .hide
+  | ["age", n] => (parseInt n).map .age
+  | ["defage"] => some .defaultAge
+  | ["how", n] => (parseInt n).map .expiration
+  | ["defhow"] => some .defaultExpiration
+  | ["srv", "0"] => some (.onServer false)
+  | ["srv", "1"] => some (.onServer true)
+  | ["reset"] => some .resetSession
+  | _ => none
+
+def parseOps (l : List String) : Option (List Op) := l.mapM parseOp
+
+/-! ### the simulated world -/
+
+structure World where
+  cfg : Cfg
+  store : Store
+  next : Nat
+  jars : List (Nat × Jar)
+  issued : List Bytes
+
+def jarOf (w : World) (b : Nat) : Jar := (w.jars.lookup b).getD Jar.empty
+
+def setJar (w : World) (b : Nat) (j : Jar) : World :=
+  { w with jars := (b, j) :: w.jars.filter (·.1 != b) }
+
+def addIssued (issued : List Bytes) (cs : List SetCookie) : List Bytes :=
+  cs.foldl (fun acc c => if c.key.isEmpty && !c.value.isEmpty && !acc.contains c.value then acc ++ [c.value] else acc) issued
+
+/-- the cookie a request presents -/
+def presented (w : World) (b : Nat) (spec : String) : Option Bytes :=
+  match spec.splitOn ":" with
+  | ["jar"] => some (jarOf w b).cookie
+  | ["none"] => some []
+  | ["raw", h] => parseHex h
+  | ["old", j] =>
+    match j.toNat? with
+    | none => none
+    | some j =>
+      let cand := w.issued.reverse.filter fun v => !(w.jars.any fun p => p.2.cookie == v)
+      if cand.isEmpty then some [] else some (cand.getD (j % cand.length) [])
+  | ["steal", b2] => b2.toNat?.map fun b2 => (jarOf w b2).cookie
+  | _ => none
+
+def saveStr : Except Err SaveKind → String
+  | .error e => "err:" ++ errStr e
+  | .ok _ => "ok"
+
+def traceStr (o : ReqOut) : String :=
+  let k := match o.saved with
+    | .error e => "err:" ++ errStr e
+    | .ok .cleared => "cleared" | .ok .untouched => "untouched" | .ok .written => "written"
+  let l := match o.reads with
+    | .error _ => "loaderr"
+    | .ok r => if r.data.isEmpty then "empty" else "loaded"
+  s!"{l} {k}"
+
+def parseLoc : String → Option Loc
+  | "client" => some .client | "server" => some .server | "both" => some .both | _ => none
+
+def parseKind : String → Option Kind
+  | "memory" => some .memory | "files" => some .files | _ => none
+
+def emptyWorld (cfg : Cfg) : World := ⟨cfg, ⟨[], []⟩, 0, [], []⟩
+
+def runReq (trace : Bool) (w : World) (b : Nat) (now : Int) (spec : String) (ops : List Op) : World × String :=
+  match presented w b spec with
+  | none => (w, "bad-op")
+  | some c =>
+    let j0 := jarOf w b
+    let j1 : Jar := if spec == "jar" then j0 else { j0 with cookie := c }
+    let ctx : Ctx := ⟨w.cfg, envStd, now, c, j1.exposed.map (·.1)⟩
+    let st0 : Store := { w.store with log := [] }
+    let o := request ctx st0 w.next ops
+    let issued0 := w.issued
+    let issued := addIssued issued0 o.cookies
+    let j2 := j1.applyAll o.cookies
+    let w' := setJar { w with store := o.store, next := o.next, issued := issued } b j2
+    let out :=
+      if trace then traceStr o
+      else
+        s!"P {canonTok issued0 c} R {readsStr o.reads} S {saveStr o.saved} C [{joinWith ";" (o.cookies.map (cookieStr issued))}] " ++
+        s!"J {jarStr issued j2} T {storeStr issued o.store} A {logStr issued o.store.log}"
+    (w', out)
+
+/-! ### the judge: `Spec.lean` evaluated on the implementation's answers -/
+
+structure JState where
+  df : Spec.Defaults
+  toks : List (String × Spec.SSess)     -- canonical token → session
+  seen : List String                    -- every issued token seen so far
+  stolen : Bool                         -- a `steal:` request occurred: exposed-cookie clause no longer judged
+  dishonest : List Nat                  -- browsers that overrode their cookie at least once
+
+def fieldsOf (ws : List String) : Option (String × String × String × String × String × String × String) :=
+  match ws with
+  | ["P", p, "R", r, "S", s, "C", c, "J", j, "T", t, "A", a] => some (p, r, s, c, j, t, a)
+  | _ => none
+
+def unbracket (s : String) : List String :=
+  let inner := sdropEnd (sdrop s 1) 1
+  if inner.isEmpty then [] else inner.splitOn ";"
+
+/-- `k=v:e` entries of a reads list; abbreviated values cannot be judged by content, only kept as text -/
+def parseReadsData (s : String) : Option (List (Bytes × String × Bool)) :=
+  (unbracket s).mapM fun ent =>
+    match ent.splitOn "=" with
+    | [k, ve] =>
+      match ve.splitOn ":" with
+      | [v, e] => (parseHex k).map fun k => (k, v, e == "1")
+      | _ => none
+    | _ => none
+
+def specOp : Op → Spec.SOp
+  | .set k v => .set k v | .erase k => .erase k | .clear => .clear | .expose k => .expose k | .hide k => .hide k
+  | .age t => .age t | .defaultAge => .defaultAge | .expiration h => .expiration h
+  | .defaultExpiration => .defaultExpiration | .onServer b => .onServer b | .resetSession => .resetSession
+
+def sortedReads (d : Spec.SData) : List String :=
+  sortStrings (d.map fun (k, v, e) => s!"{toHex k}={abbr v}:{boolStr e}")
+
+def judgeReq (js : JState) (b : Nat) (now : Int) (spec : String) (ops : List Op) (impl : List String) : JState × String :=
+  match fieldsOf impl with
+  | none => (js, "0 unparsable implementation answer")
+  | some (p, r, s, c, j, t, a) =>
+    let fail (why : String) : JState × String := (js, "0 " ++ why)
+    let cur := Spec.alive now (js.toks.lookup p)
+    let js := { js with stolen := js.stolen || spec.startsWith "steal", dishonest := if spec == "jar" then js.dishonest else b :: js.dishonest }
+    -- storage addressing: only identifiers of the issued form; stored keys are issued identifiers
+    let logKeys := (unbracket a).map fun x => sdrop x 1
+    let formOk (k : String) : Bool :=
+      k.startsWith "I#" || (k.startsWith "x" && ((parseHex (sdrop k 1)).map Spec.wellFormedId).getD false)
+    if !logKeys.all formOk then fail "storage addressed with an identifier not of the issued form"
+    else if !((unbracket t).all fun x => x.startsWith "I#") then fail "storage holds a key that was never issued"
+    else
+    match Spec.specLoad Spec.decimal js.df cur with
+    | .error _ =>
+      if r == "err:badCast" then (js, "1") else fail "reads: expected the number error"
+    | .ok w0 =>
+      let expectR := s!"{w0.age},{w0.how},{boolStr w0.srv},[{joinWith ";" (sortedReads w0.data)}]"
+      let gotR := match r.splitOn ",[" with
+        | [hd, tl] => match parseReadsData ("[" ++ tl) with
+          | some es => s!"{hd},[{joinWith ";" (sortStrings (es.map fun (k, v, e) => s!"{toHex k}={v}:{boolStr e}"))}]"
+          | none => r
+        | _ => r
+      if expectR != gotR then fail s!"reads differ from the token's session: expected {expectR}"
+      else
+        let w := ops.foldl (fun w o => Spec.applyOp Spec.decimal js.df w (specOp o)) w0
+        let cookies := unbracket c
+        let sess := (cookies.filter fun x => x.startsWith "@=").getLast?
+        let jarTok := (j.splitOn ",[").headD ""
+        let jarExp := match j.splitOn ",[" with | [_, tl] => unbracket ("[" ++ tl) | _ => []
+        let honest := !js.stolen && !js.dishonest.contains b
+        let expExposed (d : Spec.SData) := sortStrings ((Spec.exposedOf d).map fun (k, v) => s!"{toHex k}={abbr v}")
+        let revoke (toks : List (String × Spec.SSess)) := if p.startsWith "I" then toks.filter (·.1 != p) else toks
+        match Spec.decideSave js.df cur w now with
+        | .refused e =>
+          let want := match e with | .tooLong => ["err:keyTooLong", "err:valueTooLong"] | .cannotKeepOnServer => ["err:cookiesOnServer"] | .badNumber => []
+          if want.contains s then (js, "1") else fail "save: expected a refusal"
+        | .cleared =>
+          if s != "ok" then fail "save: unexpected exception"
+          else if jarTok != "-" then fail "cleared session but the browser still holds a session cookie"
+          else if honest && sortStrings jarExp != [] then fail "cleared session but exposed cookies remain"
+          else ({ js with toks := revoke js.toks }, "1")
+        | .untouched =>
+          if s != "ok" then fail "save: unexpected exception"
+          else if jarTok != p then fail "untouched session but the session cookie changed"
+          else (js, "1")
+        | .saved ss fresh cookieAge =>
+          if s != "ok" then fail "save: unexpected exception"
+          else match sess with
+            | none => fail "saved session but no session cookie was set"
+            | some sc =>
+              let body := sdrop sc 2
+              let tok := (body.splitOn ":").headD ""
+              let age := (body.splitOn ":").getD 1 ""
+              if age != ageStr cookieAge then fail s!"session cookie age {age}, expected {ageStr cookieAge}"
+              else if tok == "-" || tok.startsWith "x" then fail "saved session but the cookie is empty or not canonical"
+              else if tok.startsWith "I" && tok != p && js.seen.contains tok then fail "a new server-side identifier is not fresh"
+              else if tok.startsWith "I" && tok == p && fresh then fail "new or reset session kept its identifier"
+              else if cookieAge ≥ 0 && jarTok != tok then fail "browser does not hold the issued cookie"
+              else if cookieAge ≥ 0 && honest && sortStrings jarExp != expExposed ss.data then fail "exposed cookies out of step with the session"
+              else
+                let toks1 := if tok != p then revoke js.toks else js.toks
+                let toks2 := (tok, ss) :: toks1.filter (·.1 != tok)
+                ({ js with toks := toks2, seen := if js.seen.contains tok then js.seen else tok :: js.seen }, "1")
+
+/-! ### main loop -/
+
+structure DState where
+  trace : Bool
+  w : World
+  js : JState
+
+def initJ (cfg : Cfg) : JState := ⟨⟨cfg.timeoutDef, cfg.howDef, cfg.loc == .client⟩, [], [], false, []⟩
+
+def parseNew (ws : List String) : Option Cfg :=
+  match ws with
+  | [loc, kind, how, timeout, limit] => do
+    let loc ← parseLoc loc; let kind ← parseKind kind; let how ← parseInt how; let t ← parseInt timeout; let l ← limit.toNat?
+    pure ⟨loc, kind, how, t, l⟩
+  | _ => none
+
+/-- in a judge line the tokens seen in set-cookie calls of *every* answer must be remembered, also when the
+verdict is 0, so that freshness is judged against everything issued -/
+def step (s : DState) (line : String) : DState × String :=
+  match words line with
+  | "new" :: rest =>
+    match parseNew rest with
+    | some cfg => ({ s with w := emptyWorld cfg }, "ok")
+    | none => (s, "bad-op")
+  | "req" :: b :: now :: spec :: ops =>
+    match b.toNat?, parseInt now, parseOps ops with
+    | some b, some now, some ops => let (w, o) := runReq s.trace s.w b now spec ops; ({ s with w := w }, o)
+    | _, _, _ => (s, "bad-op")
+  | ["gc", now] =>
+    match parseInt now with
+    | some now =>
+      let st := s.w.store.gc s.w.cfg.kind now
+      ({ s with w := { s.w with store := st } }, if s.trace then "gc" else s!"T {storeStr s.w.issued st}")
+    | none => (s, "bad-op")
+  | "J" :: rest =>
+    let (cs, impl) := (rest.takeWhile (· != ";;"), (rest.dropWhile (· != ";;")).drop 1)
+    match cs with
+    | "new" :: r =>
+      match parseNew r with
+      | some cfg => ({ s with js := initJ cfg }, "1")
+      | none => (s, "bad-op")
+    | "req" :: b :: now :: spec :: ops =>
+      match b.toNat?, parseInt now, parseOps ops with
+      | some b, some now, some ops => let (js, o) := judgeReq s.js b now spec ops impl; ({ s with js := js }, o)
+      | _, _, _ => (s, "bad-op")
+    | ["gc", _] => (s, "1")
+    | _ => (s, "bad-op")
+  | _ => (s, "bad-op")
+
+def main (args : List String) : IO Unit :=
+  let cfg0 : Cfg := ⟨.server, .memory, 2, 3600, 2048⟩
+  lineLoop (⟨args.contains "trace", emptyWorld cfg0, initJ cfg0⟩ : DState) step
